@@ -85,13 +85,21 @@ func c06Encode(c *Ctx, m map[string]interface{}, enc string, safe bool, prefix, 
 			if safe {
 				out, err = mv.Json(true)
 			} else {
-				out, err = mv.Json()
+				if len(m)%2 == 0 {
+					out, err = mv.Json(false) // an explicit false means the default encoding
+				} else {
+					out, err = mv.Json()
+				}
 			}
 		case "JsonIndent":
 			if safe {
 				out, err = mv.JsonIndent(prefix, indent, true)
 			} else {
-				out, err = mv.JsonIndent(prefix, indent)
+				if len(prefix)%2 == 0 {
+					out, err = mv.JsonIndent(prefix, indent, false) // an explicit false means the default encoding
+				} else {
+					out, err = mv.JsonIndent(prefix, indent)
+				}
 			}
 		case "Copy":
 			var cp mxj.Map
